@@ -73,7 +73,9 @@ def run_jobs(jobs, workdir):
             out = os.path.join(workdir, "%s.%d.json" % (j["name"].replace("/", "_"), j["shard"]))
             env = dict(os.environ)
             env.update({"VT_SHARD": str(j["shard"]), "VT_NSHARDS": str(j["nshards"]), "VT_TIER": j["tier"],
-                        "PYTHONPATH": PYPATH, "PYTHONDONTWRITEBYTECODE": "1", "PYTHONHASHSEED": "0"})
+                        "PYTHONPATH": PYPATH, "PYTHONDONTWRITEBYTECODE": "1",
+                        # string hash seed of the workers: 0 unless an obligation (or VT_HASHSEED, for exploratory runs) says otherwise
+                        "PYTHONHASHSEED": os.environ.get("VT_HASHSEED", "0")})
             env.update({k: str(v) for k, v in (j.get("env") or {}).items()})
             log = open(out + ".log", "w")
             p = subprocess.Popen([sys.executable, "-m", "vt.worker", j["module"], j["func"], j["kind"],
